@@ -179,15 +179,16 @@ func init() {
 	})
 	register(&Property{
 		ID:        "C11",
-		Technique: "the effect and ownership rules of C06/C10 read as necessary conditions of data-race freedom: lifetime classification of every evaluation-time store, mutex discipline of the List cache, goroutine confinement of value stacks, per-iteration pipelines",
-		Explanation: "Decides the necessary condition 'every evaluation-time store targets memory allocated during that evaluation or is lock protected': generated closures are read-only after Generate (no store into compile-time scope), evaluation code writes no package level variable / generator field / shared language value, the List cache is accessed under its mutex only, " +
-			"no generator-owned stack is used by evaluation code, every Eval has its own stack, iterator pipelines are built per iteration. Not decided: actual race freedom (no sound may-alias analysis in reach), equality of concurrent and isolated outcomes.",
-		Assumptions: []string{"value.New (which writes the package level type ids) is not called concurrently with an evaluation"},
+		Technique: "the effect and ownership rules of C06/C10 read as necessary conditions of data-race freedom: lifetime classification of every evaluation-time store, mutex discipline of the List cache (lock set, append inside the trimming critical section), goroutine confinement of value stacks, per-iteration pipelines, write-once check of the package level variables evaluation code reads",
+		Explanation: "Decides the necessary condition 'every evaluation-time store targets memory allocated during that evaluation or is lock protected': generated closures are read-only after Generate (no store into compile-time scope), evaluation code writes no package level variable / generator field / shared language value, the List cache is accessed under its mutex only and an append into spare capacity happens in the critical section that trims the parent, " +
+			"no generator-owned stack is used by evaluation code, every Eval has its own stack, iterator pipelines are built per iteration, and set-up code (value.New, registration helpers) writes the package level variables that evaluation code reads only once per process (declaration, init, package level sync.Once). Not decided: actual race freedom (no sound may-alias analysis in reach), equality of concurrent and isolated outcomes.",
+		Assumptions: []string{"host functions and host values registered by the application are themselves safe for concurrent use"},
 		Rules: []*Rule{
 			{ID: "R10.1a", Title: "generated closures store nothing into generator (compile time) scope", Floor: 25, Run: ruleR101closures},
 			{ID: "R10.1b", Title: "stage producers modify only state created inside the producer (per iteration)", Floor: 23, Run: ruleR101stages},
 			{ID: "R10.1c", Title: "evaluation code stores nothing into package level variables, generator fields or shared language values", Floor: 1, Run: ruleR101effects},
 			{ID: "R10.2", Title: "every Eval creates its own stack; no generator-owned stack is used by evaluation code", Floor: 2, Run: ruleR102},
+			{ID: "R11.1", Title: "package level variables read by evaluation code are written once per process only (declaration, init, package level sync.Once)", Floor: 11, Run: ruleR111},
 			{ID: "R06.2", Title: "the List cache is accessed under its mutex only", Floor: 8, Run: ruleR062},
 			{ID: "R09.1", Title: "list backing slices are never written in place; an append into spare capacity happens inside the critical section that trims the parent (see C09)", Floor: 36, Run: ruleR091},
 			{ID: "R06.1", Title: "value stacks are goroutine confined at MapAuto/FilterAuto/Merge", Floor: 3, Run: ruleR061},
